@@ -48,7 +48,7 @@ static std::string stepText(const Step &s) {
         default: return "count";
     }
 }
-static std::string caseText(const QCase &c) { std::string s = fmt("capacity=%d failDup=%d: ", c.cap, c.failAt); for (auto &st : c.steps) s += stepText(st) + " "; return s; }
+static std::string caseText(const QCase &c) { std::string s = fmt("capacity=%d failDup=%d: ", c.cap, c.failAt); size_t n = 0; for (auto &st : c.steps) { if (++n > 60) { s += fmt("... (%zu steps)", c.steps.size()); break; } s += stepText(st) + " "; } return s; }
 static std::string replayOf(const QCase &c) {
     std::string s = fmt("cap=%d\nfailat=%d\nsteps=", c.cap, c.failAt);
     for (auto &st : c.steps) s += fmt("%d:%d:%zu:%s;", st.op, st.code, st.len, hexEnc(st.text).c_str());
@@ -202,6 +202,38 @@ static void runEnum(const Opt &o, Ev &ev) {
 }
 
 // ---- random long histories
+// ---- soak: one long scheduled history per capacity (no randomness: a fixed push/pop rhythm that keeps the queue 1..3 deep, a
+// text on every third push, an overflow burst every 1000 pushes), long enough for any 16-bit index, counter or count to wrap
+static QCase soakCase(int cap, int pushes) {
+    QCase c; c.cap = cap;
+    int depth = 0;
+    for (int i = 0; i < pushes; i++) {
+        Step st; st.len = 0; st.code = (i % 30000) + 1;
+        if (i % 3 == 0) { st.op = Q_PUSHTEXT; st.text = fmt("t%d", i); } else st.op = Q_PUSH;
+        c.steps.push_back(st); if (depth < cap) depth++;
+        bool burst = (i % 1000) >= 990;                       // let the queue overflow now and then
+        int want = burst ? cap : std::min(cap, 1 + (i % 3));
+        while (depth > want || (depth == cap && !burst && cap == 1)) { Step p; p.len = 0; p.code = 0; p.op = (i % 5 == 0) ? Q_ERRQ : Q_POP; c.steps.push_back(p); depth--; if (depth == 0) break; }
+        if (i % 4096 == 4095) { Step q; q.len = 0; q.code = 0; q.op = Q_COUNTQ; c.steps.push_back(q); }
+    }
+    return c;
+}
+static void runSoak(const Opt &o, Ev &ev) {
+    static const int caps[] = {1, 2, 3, 4, 5, 6, 7, 12, 16, 17};
+    int pushes = o.quick() ? 70000 : 400000;
+    for (size_t i = 0; i < sizeof caps / sizeof caps[0]; i++) {
+        if ((int) (i % (size_t) o.workers) != o.worker) continue;
+        armCase(fmt("sub=soak\ncap=%d\npushes=%d\n", caps[i], pushes));
+        QCase c = soakCase(caps[i], pushes);
+        Hist10 h;
+        std::string m = runCase(c, &h);
+        ev.eval(); ev.ntCount(); ev.label("soak-steps", c.steps.size());
+        if (ev.wantSample()) ev.sample(fmt("soak: capacity %d, %d pushes, %zu steps", caps[i], pushes, c.steps.size()));
+        if (!m.empty()) failEnum(o, ev, "soak", fmt("cap=%d\npushes=%d\n", caps[i], pushes), m);
+    }
+    disarmCase();
+}
+
 static std::string expandText(uint32_t seed, size_t len) {
     std::string t; uint64_t x = splitmix(seed);
     for (size_t i = 0; i < len; i++) { if ((i & 7) == 0) x = splitmix(x); unsigned ch = (unsigned) (x >> ((i & 7) * 8)) & 0x7f; if (ch == 0) ch = '"'; t += (char) ch; }
@@ -248,6 +280,7 @@ int main(int argc, char **argv) {
     subs.push_back({"enum", runEnum, replaySeq});
     subs.push_back({"rand", [](const Opt &o, Ev &ev) { g_maxOps = 300; runRandom(o, ev, "rand", 1300, o.quick() ? 1500 : 6000, body); },
                     [](const Replay &r) { g_maxOps = 300; auto v = r.choices(); Src s(v); Ev e; return body(s, e); }});
+    subs.push_back({"soak", runSoak, [](const Replay &r) { return runCase(soakCase((int) r.num("cap", 3), (int) r.num("pushes", 70000))); }});
     subs.push_back({"long", [](const Opt &o, Ev &ev) { g_maxOps = 10000; g_shrinkBudget = 1500; runRandom(o, ev, "long", 41000, o.quick() ? 12 : 150, body); },
                     [](const Replay &r) { g_maxOps = 10000; auto v = r.choices(); Src s(v); Ev e; return body(s, e); }});
     return mainWith(argc, argv, "C10", subs);
